@@ -432,30 +432,45 @@ func (w *Watcher) Run(ctx context.Context) error {
 						expectedConfirmations = uint64(pLock.message.ConsistencyLevel)
 					}
 
-					// Transaction was dropped and never picked up again
-					if pLock.height+expectedConfirmations+w.maxWaitConfirmations <= blockNumberU {
-						logger.Info("observation timed out",
-							zap.Stringer("tx", pLock.message.TxHash),
-							zap.Stringer("blockhash", key.BlockHash),
-							zap.Stringer("emitter_address", key.EmitterAddress),
-							zap.Uint64("sequence", key.Sequence),
-							zap.Stringer("current_block", ev.Number),
-							zap.Bool("is_safe_block", ev.Safe),
-							zap.Stringer("current_blockhash", currentHash),
-							zap.String("eth_network", w.networkName),
-							zap.Uint64("expectedConfirmations", expectedConfirmations),
-							zap.Uint64("maxWaitConfirmations", w.maxWaitConfirmations),
-						)
-						ethMessagesOrphaned.WithLabelValues(w.networkName, "timeout").Inc()
-						delete(w.pending, key)
-						continue
-					}
-
 					// Transaction is now ready
 					if pLock.height+expectedConfirmations <= blockNumberU {
 						timeout, cancel := context.WithTimeout(ctx, 5*time.Second)
 						tx, err := w.ethConn.TransactionReceipt(timeout, pLock.message.TxHash)
 						cancel()
+
+						// Any error other than "not found" is likely transient (the receipt is nil in that case as well, so this
+						// has to be tested before the orphan check) - we retry next block, until the node has failed to
+						// confirm the transaction for the whole abandonment window.
+						if err != nil && err != rpc.ErrNoResult && err.Error() != "not found" {
+							if pLock.height+expectedConfirmations+w.maxWaitConfirmations <= blockNumberU {
+								logger.Info("observation timed out",
+									zap.Stringer("tx", pLock.message.TxHash),
+									zap.Stringer("blockhash", key.BlockHash),
+									zap.Stringer("emitter_address", key.EmitterAddress),
+									zap.Uint64("sequence", key.Sequence),
+									zap.Stringer("current_block", ev.Number),
+									zap.Bool("is_safe_block", ev.Safe),
+									zap.Stringer("current_blockhash", currentHash),
+									zap.String("eth_network", w.networkName),
+									zap.Uint64("expectedConfirmations", expectedConfirmations),
+									zap.Uint64("maxWaitConfirmations", w.maxWaitConfirmations),
+									zap.Error(err))
+								ethMessagesOrphaned.WithLabelValues(w.networkName, "timeout").Inc()
+								delete(w.pending, key)
+								continue
+							}
+							logger.Warn("transaction could not be fetched",
+								zap.Stringer("tx", pLock.message.TxHash),
+								zap.Stringer("blockhash", key.BlockHash),
+								zap.Stringer("emitter_address", key.EmitterAddress),
+								zap.Uint64("sequence", key.Sequence),
+								zap.Stringer("current_block", ev.Number),
+								zap.Bool("is_safe_block", ev.Safe),
+								zap.Stringer("current_blockhash", currentHash),
+								zap.String("eth_network", w.networkName),
+								zap.Error(err))
+							continue
+						}
 
 						// If the node returns an error after waiting expectedConfirmation blocks,
 						// it means the chain reorged and the transaction was orphaned. The
@@ -497,21 +512,6 @@ func (w *Watcher) Run(ctx context.Context) error {
 								zap.Error(err))
 							delete(w.pending, key)
 							ethMessagesOrphaned.WithLabelValues(w.networkName, "tx_failed").Inc()
-							continue
-						}
-
-						// Any error other than "not found" is likely transient - we retry next block.
-						if err != nil {
-							logger.Warn("transaction could not be fetched",
-								zap.Stringer("tx", pLock.message.TxHash),
-								zap.Stringer("blockhash", key.BlockHash),
-								zap.Stringer("emitter_address", key.EmitterAddress),
-								zap.Uint64("sequence", key.Sequence),
-								zap.Stringer("current_block", ev.Number),
-								zap.Bool("is_safe_block", ev.Safe),
-								zap.Stringer("current_blockhash", currentHash),
-								zap.String("eth_network", w.networkName),
-								zap.Error(err))
 							continue
 						}
 
